@@ -1043,7 +1043,7 @@ class Analysis:
             return None
         if d == "std::iter::Iterator::for_each" and len(a) == 2:
             return self._for_each(frame, t, ev, path, bb)
-        if d in ("std::iter::Iterator::all", "std::iter::Iterator::any") and len(a) == 2:
+        if d in ("std::iter::Iterator::all", "std::iter::Iterator::any", "std::iter::Iterator::find") and len(a) == 2:
             return self._for_each(frame, t, ev, path, bb, short=d.split("::")[-1])
         if getattr(self.policy, "fork_std", False):
             return self._fork_std(frame, t, ev, path, bb)
@@ -1078,17 +1078,18 @@ class Analysis:
         some = (("discr", res), ("==", 1), line)
         none = (("discr", res), ("==", 0), line)
         if fv[0] == "closure":
-            outs, body = self._closure_outs(frame, fv, [item])
+            outs, body = self._closure_outs(frame, fv, [("ref", False, ("val", item)) if short == "find" else item])
             if outs is None:
                 return None
             split = None
             if short:
                 stop = I(0 if short == "all" else 1, "bool")
+                stopval = _some(item) if short == "find" else stop
 
-                def split(ret, stop=stop):
+                def split(ret, stop=stop, stopval=stopval):
                     if is_int(ret):
-                        return [(None, ("val", stop))] if bool(ret[1]) == bool(stop[1]) else [(None, "iter")]
-                    return [((ret, ("==", bool(stop[1]))), ("val", stop)), ((ret, ("==", not bool(stop[1]))), "iter")]
+                        return [(None, ("val", stopval))] if bool(ret[1]) == bool(stop[1]) else [(None, "iter")]
+                    return [((ret, ("==", bool(stop[1]))), ("val", stopval)), ((ret, ("==", not bool(stop[1]))), "iter")]
             r = self._merge_outs(frame, t, path, outs, body["path"], guard=some, as_iteration=header, pre_calls=(e1, e2), ret_split=split)
             if short:
                 dead = r[2]
@@ -1133,7 +1134,7 @@ class Analysis:
                 fe.write_lv(lv, ("loopvar", header, lv, old), pe)
             except Exception:
                 pass
-        self._assign_dest(fe, t, I(1 if short == "all" else 0, "bool") if short else ("unit",), pe)
+        self._assign_dest(fe, t, (NONE if short == "find" else I(1 if short == "all" else 0, "bool")) if short else ("unit",), pe)
         return ("forks", [(fe, pe)] + (stopped if fv[0] == "closure" else []), dead)
 
     OPT_RE = re.compile(r"^std::option::Option::<[^>]*>::(\w+)$")
@@ -1169,6 +1170,7 @@ class Analysis:
                 "and_then": [(some, ("clo", a[1] if len(a) > 1 else None, [pay], ident)), (none, ("val", NONE))],
                 "ok_or": [(some, ("val", ok_(pay))), (none, ("val", err_(a[1]) if len(a) > 1 else None))],
                 "ok_or_else": [(some, ("val", ok_(pay))), (none, ("clo", a[1] if len(a) > 1 else None, [], err_))],
+                "as_ref": [(some, ("val", _some(("ref", False, ("val", pay))))), (none, ("val", NONE))],
                 "is_some": [(some, ("val", TRUE)), (none, ("val", FALSE))],
                 "is_none": [(some, ("val", FALSE)), (none, ("val", TRUE))],
                 "copied": [(some, ("val", _some(("deref", pay)))), (none, ("val", NONE))],
@@ -1418,9 +1420,44 @@ def _option_rows(an, frame, ev, path, d, a):
                 r = _call_closure(an, frame, a[1], [], path)
                 return _some(r) if r is not None and r[0] != "PANIC" else None
         return None
-    if not d.startswith("std::option::Option::<T>::") or not a or not _is_opt(a[0]):
+    if d.startswith("std::result::Result::<") and a:
+        r0 = a[0]
+        if isinstance(r0, tuple) and r0[0] == "ref":
+            r0 = frame.read_lv(r0[2])
+        if isinstance(r0, tuple) and r0[0] == "agg" and r0[1] == "std::result::Result":
+            isok = r0[3] == "Ok"
+            x = r0[4][0]
+            if m in ("copied", "cloned"):
+                return ("agg", "std::result::Result", 0, "Ok", (_unref(frame, x) if isinstance(x, tuple) and x[0] == "ref" else ("deref", x),)) if isok else r0
+            if m == "ok":
+                return _some(x) if isok else NONE
+            if m == "is_ok":
+                return I(1 if isok else 0, "bool")
+            if m == "is_err":
+                return I(0 if isok else 1, "bool")
+            if m == "unwrap_or":
+                return x if isok else a[1]
+            if m == "map" and not isok:
+                return r0
+            if m == "map_err" and isok:
+                return r0
+            if m == "map" and isok:
+                r = _call_closure(an, frame, a[1], [x], path)
+                return ("agg", "std::result::Result", 0, "Ok", (r,)) if r is not None and r[0] != "PANIC" else None
+            if m == "map_err" and not isok:
+                r = _call_closure(an, frame, a[1], [x], path)
+                return ("agg", "std::result::Result", 1, "Err", (r,)) if r is not None and r[0] != "PANIC" else None
         return None
-    o = a[0]
+    if not re.match(r"^std::option::Option::<[^>]*>::\w+$", d) or not a:
+        return None
+    o0 = a[0]
+    if isinstance(o0, tuple) and o0[0] == "ref" and m in ("is_some", "is_none", "as_ref"):
+        o0 = frame.read_lv(o0[2])
+    if not _is_opt(o0):
+        return None
+    o = o0
+    if m == "as_ref":
+        return _some(("ref", False, ("val", o[4][0]))) if o[3] == "Some" else NONE
     some = o[3] == "Some"
     x = o[4][0] if some else None
     if m == "is_some":
@@ -1440,6 +1477,14 @@ def _option_rows(an, frame, ev, path, d, a):
             return NONE
         r = _call_closure(an, frame, a[1], [x], path)
         return _some(r) if r is not None and r[0] != "PANIC" else None
+    if m == "map_or":
+        if not some:
+            return a[1]
+        return _call_closure(an, frame, a[2], [x], path)
+    if m == "and_then":
+        if not some:
+            return NONE
+        return _call_closure(an, frame, a[1], [x], path)
     if m == "ok_or_else":
         if some:
             return ("agg", "std::result::Result", 0, "Ok", (x,))
